@@ -40,14 +40,18 @@ ImplCorrect ==
 
 \* layer C of the operator wrapper: range limits / offsets of ResizingOperator for every 1-d (m, n, offset | default)
 RangeFixed == IOEnv.RS_RANGE_FIXED = "1"
+Flags4 == {f \in [1..4 -> {0, 1}] : TRUE}
 ImplRangeCorrect ==
-  (obs = NoObs /\ Len(cfg.shapeIn) = 1 /\ cfg.dir = "forward" /\ cfg.c = 0) =>
-     \A lh \in {<<<<0, 1>>, <<1, 1>>>>, <<<<-1, 1>>, <<1, 2>>>>, <<<<1, 2>>, <<2, 1>>>>} :
+  (obs = NoObs /\ Len(cfg.shapeIn) = 1 /\ cfg.dir = "forward" /\ cfg.c = 0 /\ cfg.mode = "constant") =>
+     \A lh \in {<<<<0, 1>>, <<1, 1>>>>, <<<<-1, 1>>, <<1, 2>>>>, <<<<1, 2>>, <<2, 1>>>>} : \A f \in Flags4 :
         LET m == cfg.shapeIn[1]  n == cfg.shapeOut[1]
             lo == lh[1]
-            hi == QAdd(lo, QMul(QI(m), lh[2]))
-        IN  /\ ImplRangeCorrectFor(lo, hi, m, n, cfg.offs[1], RangeFixed)
-            /\ (cfg.offs[1] = 0 => ImplRangeCorrectFor(lo, hi, m, n, -1, RangeFixed))
+            \* hi such that the cell side is lh[2] for these flags
+            hi == QAdd(lo, QMul(Q(CellsB2(m, f[1], f[2]), 2), lh[2]))
+        IN  FlagsOK(m, n, f[1], f[2], f[3], f[4]) =>
+              /\ CellSideB(lo, hi, m, f[1], f[2]) = lh[2]
+              /\ ImplRangeCorrectForB(lo, hi, m, n, cfg.offs[1], f[1], f[2], f[3], f[4], RangeFixed)
+              /\ (cfg.offs[1] = 0 => ImplRangeCorrectForB(lo, hi, m, n, -1, f[1], f[2], f[3], f[4], RangeFixed))
 
 Export ==
   IF obs = NoObs THEN TRUE
